@@ -55,7 +55,12 @@ func fromTJSON(j J, w *bytes.Buffer) {
 }
 
 func tStr(s string) J           { return Obj{"s": cwf.StrToJ(s)} }
-func tObj(members ...any) J     { return Obj{"o": members} }
+func tObj(members ...any) J {
+	if members == nil {
+		members = []any{}
+	}
+	return Obj{"o": members}
+}
 func tMember(k string, v J) any { return Obj{"k": cwf.StrToJ(k), "v": v} }
 func tKey(m any) string         { return must(cwf.JToStr(m.(Obj)["k"])) }
 func tMembers(j J) ([]any, bool) {
